@@ -9,6 +9,9 @@
 (*                                 the cuts around header and end for long    *)
 (*   Alternative(op)               the same data pushed by another opcode     *)
 (*                                 able to carry it (kind "alt")              *)
+(*   Truncate(k) again             the first k bytes of such an alternative   *)
+(*                                 (kind "alttrunc"): cut short AND announced *)
+(*                                 by an opcode the minimal-push rule refuses *)
 (*   ChooseHuge(field, k, fill)    OP_PUSHDATA4 announcing 2^31 - 1 .. 2^32 - 1 *)
 (*                                 bytes (the length as its 4 bytes), followed *)
 (*                                 by k bytes (kind "huge"): never fits        *)
@@ -20,10 +23,12 @@
 (*   NextInstr (record the instruction, move on) until "end" or "bad".        *)
 (* Export (Export = TRUE):                                                    *)
 (*   {k:"push", d, enc, op}                      encoder: d must compile to enc *)
-(*   {k:"parse", cls, script, d, items:[{at,op,ok,data,pc,push,val,minok,why}], wf} *)
+(*   {k:"parse", cls, script, d, items:[{at,op,ok,data,pc,push,val,minok,why,plain,strict}], wf} *)
 (*        walking the script instruction by instruction must give items;      *)
 (*        ok=FALSE: malformed; push: the instruction pushes `data`;           *)
-(*        minok: MINIMALDATA accepts it; wf: no malformed instruction         *)
+(*        minok: MINIMALDATA accepts it; wf: no malformed instruction;        *)
+(*        plain / strict: what fetching the instruction reports without /     *)
+(*        with MINIMALDATA required (ScriptPush!Fetch)                        *)
 EXTENDS ScriptPush, TLC, Json, FiniteSets
 
 CONSTANTS Lens,        \* data lengths
@@ -66,9 +71,12 @@ ChooseHuge(field, k, fill) ==
 
 Cuts(T) == IF T <= SmallTotal THEN 1..(T - 1)
            ELSE {k \in (1..8) \cup {T \div 2, T - 2, T - 1} : k < T}
+\* alternatives are cut around the header and the end only (their length fields are what differs)
+AltCuts(T) == {k \in (1..8) \cup {T \div 2, T - 2, T - 1} : 0 < k /\ k < T}
 Truncate(k) ==
-  /\ kind = "enc" /\ st = Idle
-  /\ kind' = "trunc" /\ scr' = RTake(scr, k) /\ UNCHANGED <<d, st, items>>
+  /\ kind \in {"enc", "alt"} /\ st = Idle
+  /\ kind' = (IF kind = "enc" THEN "trunc" ELSE "alttrunc")
+  /\ scr' = RTake(scr, k) /\ UNCHANGED <<d, st, items>>
 
 Alternative(op) ==
   /\ kind = "enc" /\ st = Idle
@@ -83,13 +91,14 @@ AppendRaw(x) ==
   /\ kind' = "raw" /\ scr' = RCat(scr, ROne(x)) /\ UNCHANGED <<d, st, items>>
 
 Begin ==
-  /\ kind \in {"enc", "trunc", "alt", "raw", "huge"} /\ st = Idle
+  /\ kind \in {"enc", "trunc", "alt", "alttrunc", "raw", "huge"} /\ st = Idle
   /\ st' = Start(0) /\ UNCHANGED <<kind, d, scr, items>>
 
 Item(r) == [at |-> r.at, op |-> r.op, ok |-> r.ph = "done", data |-> r.data, pc |-> r.pc,
             push |-> r.ph = "done" /\ IsPush(r),
             val |-> IF r.ph = "done" /\ IsPush(r) THEN PushedValue(r) ELSE <<>>,
-            minok |-> r.ph # "done" \/ MinimalOK(r), why |-> r.why]
+            minok |-> r.ph # "done" \/ MinimalOK(r), why |-> r.why,
+            plain |-> Fetch(r, FALSE), strict |-> Fetch(r, TRUE)]
 Report(its) == Emit([k |-> "parse", cls |-> kind, script |-> scr, d |-> d, items |-> its,
                      wf |-> \A i \in 1..Len(its) : its[i].ok])
 
@@ -108,7 +117,8 @@ NextRaw == IF RLen(scr) < RawFull THEN 0..255 ELSE RawAlpha
 Choose == kind = "root" /\ \E len \in Lens :
             \E first \in (IF len = 1 /\ AllOneByte THEN 0..255 ELSE IF len = 0 THEN {0} ELSE Firsts) :
               \E fill \in (IF len <= 1 THEN {0} ELSE Fills) : ChooseData(len, first, fill)
-Cut == kind = "enc" /\ st = Idle /\ \E k \in Cuts(RLen(scr)) : Truncate(k)
+Cut == kind \in {"enc", "alt"} /\ st = Idle /\
+       \E k \in (IF kind = "enc" THEN Cuts(RLen(scr)) ELSE AltCuts(RLen(scr))) : Truncate(k)
 Alt == kind = "enc" /\ st = Idle /\ \E op \in PushOps : Alternative(op)
 Raw == kind \in {"root", "raw"} /\ st = Idle /\ RLen(scr) < RawMax /\ \E x \in NextRaw : AppendRaw(x)
 Big == kind = "root" /\ \E field \in HugeFields, k \in HugeTails, fill \in {0, 97} : ChooseHuge(field, k, fill)
@@ -126,13 +136,24 @@ InvEncoder == kind = "enc" /\ st = Idle =>
   /\ LemmaShortest(d) /\ LemmaMinimal(d)
   /\ \A op \in PushOps : LemmaReadBack(d, op)
   /\ \A k \in Cuts(RLen(scr)) : LemmaPrefix(d, k)
+  /\ \A op \in PushOps : CanPush(op, d) => \A k \in AltCuts(RLen(EncWith(op, d))) : LemmaCut(d, op, k)
 \* what the cursor machine must have found when it stops
 Stopped == st # Idle /\ st.ph \in {"bad", "end"}
 InvEnc == (kind = "enc" /\ Stopped) =>
   /\ st.ph = "end" /\ Len(items) = 1
   /\ items[1].ok /\ items[1].push /\ items[1].val = d /\ items[1].pc = RLen(scr) /\ items[1].minok
   /\ items[1].op = PushOpFor(d)
-InvTrunc == (kind = "trunc" /\ Stopped) => st.ph = "bad" /\ Len(items) = 1 /\ ~items[1].ok
+InvTrunc == (kind \in {"trunc", "alttrunc"} /\ Stopped) =>
+  /\ st.ph = "bad" /\ Len(items) = 1 /\ ~items[1].ok
+  /\ items[1].plain = "malformed" /\ items[1].strict = "malformed"
+\* the report agrees with the parts it is made of: malformed iff not complete, under either flag; a complete
+\* instruction is refused under MINIMALDATA iff CheckMinimalPush refuses it, and never without the flag
+InvFetch == Stopped => \A i \in 1..Len(items) :
+  /\ (items[i].plain = "malformed") <=> ~items[i].ok
+  /\ (items[i].strict = "malformed") <=> ~items[i].ok
+  /\ items[i].ok => (items[i].plain = "ok" /\ ((items[i].strict = "ok") <=> items[i].minok))
+  /\ ScriptReport(scr, FALSE) = (IF st.ph = "bad" THEN "malformed" ELSE "ok")
+  /\ ScriptReport(scr, TRUE) \in {items[j].strict : j \in 1..Len(items)} \cup {"ok"}
 \* an announced length of 2^31 - 1 or more never fits: malformed, the cursor stays inside the instruction
 InvHuge == (kind = "huge" /\ Stopped) =>
   /\ st.ph = "bad" /\ st.why = "data truncated" /\ Len(items) = 1 /\ ~items[1].ok /\ items[1].at = 0
